@@ -978,6 +978,9 @@ func (g *genState) reqsC08(docs map[uuid.UUID]Val) []requestSpec {
 				}
 				out = append(out, requestSpec{q: q})
 			}
+			// and one walk from the entry node, no pre-filter (what a cold instance finds depends on the persisted
+			// entry node and its vector)
+			out = append(out, requestSpec{q: querySpec{kind: "vamana", prop: ix.path, vec: g.genVec(ix.dim), search: 30, limit: 1 + r.IntN(10)}})
 		case ixText:
 			for k := 0; k < 2; k++ {
 				text := g.pick(g.words) + " " + g.pick(g.words)
